@@ -341,20 +341,20 @@ type C16Nested struct {
 	MSS   map[string][]string
 }
 type C16Flat struct {
-	B   bool
-	S   string
-	I   int
-	I8  int8
-	U64 uint64
-	F32 float32
-	F64 float64
-	C   complex128
-	D   time.Duration
-	T   time.Time
-	TU  tuPtr
-	SS  []string
-	IS  []int
-	M   map[string]string
+	B          bool
+	S          string
+	I          int
+	I8         int8
+	U64        uint64
+	F32        float32
+	F64        float64
+	C          complex128
+	D          time.Duration
+	T          time.Time
+	TU         tuPtr
+	SS         []string
+	IS         []int
+	M          map[string]string
 	unexported int
 	Skip       int `dials:"-"`
 }
@@ -364,23 +364,23 @@ var c16Static = []reflect.Type{rt[C16Server](), rt[C16Embed](), rt[C16Ptrs](), r
 // ---------- feature walker (what the known-finding predicates are written over) ----------
 
 type c16Feat struct {
-	PtrPtrStruct     bool // a field with >= 2 pointer levels (named pointer types count) above a non-TextUnmarshaler struct
-	PtrPtrStructBare bool // … whose struct (which Pointerify leaves untouched) has a field that is not nil-able, or contains such a struct
-	NamedPtrUnderPtr bool // a pointer to a NAMED pointer-to-struct type (*PInP)
-	PtrPtrScalar     bool // >= 2 pointer levels above a non-struct type
-	EmbeddedMethods  bool // an embedded field whose pointerified type has methods (reflect.StructOf cannot build the struct)
-	EmptyEnvName     bool // a dials tag that decodes to no word, or an empty dialsenv tag: env.go's explicit panic
-	BadFlagName      bool // a flag name the standard flag package rejects by panicking (leading '-', contains '=', empty)
-	BadShorthand     bool // a dialspflagshort tag longer than one character
-	PtrToCollection  bool // a user-declared pointer to a slice or map (*[]string, *Names, *map[string]int)
-	NamedPtrToNamed  bool // a NAMED pointer type whose element is a user-defined scalar type (type PNStr *NStr)
-	NamedComplex     bool // a user-defined complex type (type NC128 complex128), possibly behind pointers
-	NamedScalar      bool // any user-defined scalar type (leaf, element, key or value)
+	PtrPtrStruct      bool // a field with >= 2 pointer levels (named pointer types count) above a non-TextUnmarshaler struct
+	PtrPtrStructBare  bool // … whose struct (which Pointerify leaves untouched) has a field that is not nil-able, or contains such a struct
+	NamedPtrUnderPtr  bool // a pointer to a NAMED pointer-to-struct type (*PInP)
+	PtrPtrScalar      bool // >= 2 pointer levels above a non-struct type
+	EmbeddedMethods   bool // an embedded field whose pointerified type has methods (reflect.StructOf cannot build the struct)
+	EmptyEnvName      bool // a dials tag that decodes to no word, or an empty dialsenv tag: env.go's explicit panic
+	BadFlagName       bool // a flag name the standard flag package rejects by panicking (leading '-', contains '=', empty)
+	BadShorthand      bool // a dialspflagshort tag longer than one character
+	PtrToCollection   bool // a user-declared pointer to a slice or map (*[]string, *Names, *map[string]int)
+	NamedPtrToNamed   bool // a NAMED pointer type whose element is a user-defined scalar type (type PNStr *NStr)
+	NamedComplex      bool // a user-defined complex type (type NC128 complex128), possibly behind pointers
+	NamedScalar       bool // any user-defined scalar type (leaf, element, key or value)
 	EmbeddedNonStruct bool // an embedded field that is not a struct (embedded named scalar or slice)
-	AliasOnEmbedded  bool // an alias tag on an embedded struct field
-	NonStringKeyMap  bool // a map whose key type is not a string kind
-	CommaTag         bool // a tag value with options after a comma (the harness renders tag names without them)
-	Leaves           int
+	AliasOnEmbedded   bool // an alias tag on an embedded struct field
+	NonStringKeyMap   bool // a map whose key type is not a string kind
+	CommaTag          bool // a tag value with options after a comma (the harness renders tag names without them)
+	Leaves            int
 }
 
 func hasNonStringKeyMap(t reflect.Type, depth int) bool {
